@@ -22,7 +22,7 @@ Exp == LET n == Len(desc)
             LET m == O - BLow + i - 1
                 k0 == AllowedKFast(f, n, O, m, 0)
                 k4 == AllowedKFast(f, n, O, m, 4)
-            IN <<m - O, MayDisable(O, m),
+            IN <<m - O, IF MayDisable(O, m) THEN 1 ELSE 0,
                  IF k0 = {} THEN 1 ELSE Min(k0), IF k0 = {} THEN 0 ELSE Max(k0),
                  IF k4 = {} THEN 1 ELSE Min(k4), IF k4 = {} THEN 0 ELSE Max(k4)>>]
 
@@ -30,7 +30,7 @@ GBInit == BInit /\ max = O /\ hist = <<>> /\ jc = <<0>>
 GBNext == \E g \in (IF desc = <<>> THEN First ELSE Glyphs) :
              Extend(g) /\ jc' = Append(jc, jc[Len(jc)] + JsonW[g]) /\ UNCHANGED hist
 GBSpec == GBInit /\ [][GBNext]_<<vars, hist, jc>>
-EmitB == PrintT(<<"BEH", ToJson([g |-> desc, exp |-> Exp])>>)
+EmitB == PrintT(<<"BEH", ToJson(<<desc, Exp>>)>>)      \* compact: [[glyphs], [[b, dis, lo0, hi0, lo4, hi4], ...]]
 JcOK == Len(desc) <= 4 => jc = [k \in 1 .. Len(desc) + 1 |-> JCum(desc)[k - 1]]
 
 GLInit == LInit /\ enabled = TRUE /\ hist = <<>> /\ jc = <<>>
